@@ -166,6 +166,8 @@ class SimFile:
 
     def truncate(self, size=None):
         _y(K['FWRITE'], self._id, -1)
+        if STATE['wlog'] is not None:
+            STATE['wlog'].append((self._path.name, 'truncate', self._raw.tell() if size is None else size))
         return self._raw.truncate(size)
 
     def readable(self):
